@@ -1,6 +1,7 @@
 """C05 — relocation field encoding is exact, total on its range and bit-preserving.
 Proof: lean/DynasmVerif/Props/C05.lean.  Tie: `reloc` correspondence stream (exhaustive for small fields,
-boundary windows + strided sweeps for wide ones) + Generated/RelocSpec.lean (constants extracted from the Rust text)."""
+boundary windows + strided sweeps for wide ones) + Generated/RelocCode.lean (the Rust text of the relocation code translated to Lean on
+every run, proved equal to the model in Props/C05Spec.lean)."""
 import json
 import os
 
@@ -195,7 +196,7 @@ def check(run):
                             "boundary and a strided sweep for wider fields, explicit writes at boundaries ±9 / type extremes / random, reads of random words; "
                             "3-6 old-word patterns (zeros, ones, checkerboards, random). non-trivial = explicit write within 2 of a range end or misaligned inside the range")
     common.base_trusted(run, bv=True)
-    run.coverage["trusted_base"] += ["harness/rt (calls Relocation::write_value/read_value in-process)", "lib/relocspec.py (constant extractor)",
+    run.coverage["trusted_base"] += ["harness/rt (calls Relocation::write_value/read_value in-process)", "lib/reloctrans.py + lib/rustexpr.py (Rust text -> bit-vector IR -> Lean; the IR is evaluated against the compiled implementation on every explicit request)",
                                      "archDecode/docRange in Model/Reloc.lean (written from the ISA manuals / langref)"]
     run.assumptions += ["64-bit host: isize = i64", "riscv B/J ranges are the documented +-2KiB/+-512KiB (langref_riscv.md table 7)",
                         "ADRP is stated for page-aligned targets (adrp_page_aligned_target)"]
@@ -206,8 +207,6 @@ def check(run):
     import relocspec
     spec_ok, spec_msg = relocspec.generate(run)
     modules = ["DynasmVerif.Props.C05"] + (["DynasmVerif.Props.C05Spec"] if spec_ok else [])
-    if spec_msg == "absent":
-        spec_ok = True
     proofs_ok = common.standard_proof_step(run, modules, allow_bv_decide=True)
     if not proofs_ok and hasattr(run, "broken_build"):
         # a proof obligation no longer checks: still run the correspondence to look for a failing input
@@ -216,8 +215,15 @@ def check(run):
             run.violation("broken-obligation", {"kind": "lean-build"}, run.broken_build["first_error"], run.broken_build, found_input=False)
             return
     chunks, stats = gen_requests(run.tier, run.seed)
+    if not proofs_ok and hasattr(run, "broken_build"):
+        # the prover's counterexample (if it printed one) is tried on every format of the implementation first
+        extra = relocspec.counterexample_requests(getattr(run, "lake_log", ""), FORMATS)
+        if extra:
+            chunks.insert(0, extra)
+            stats["counterexample_requests"] = len(extra)
     run.coverage["distribution"] = stats
     results = common.parallel_map(run_chunk, chunks)
+    stats["translation_validated_requests"] = relocspec.validate(run, results)
     n_req, found_before = 0, len(run.violations) + len(run.known_hit)
     for (pairs, diffs, rcs), reqs in zip(results, chunks):
         n_req += len(pairs)
